@@ -1,7 +1,7 @@
 """C36 Pairing method selection matches the IO capability mapping."""
 import json, os
 from .lib.match import *
-from .lib.dlist import evaluate, fold
+from .lib.dlist import evaluate, fold, value_leaf
 from .lib.facts import VERIF, AnalysisBroken
 
 SELECT = r'^bluetoe::(pairing_no_output|pairing_numeric_output)::|^bluetoe::details::(io_capabilities_matrix|security_manager_base|security_manager_impl)::'
@@ -58,7 +58,10 @@ def run(chk, facts, tier):
                 for col, remote in enumerate(spec['initiator_order']):
                     env = {pname: io_enum[remote]} if pname else {}
                     r = evaluate(fn, env)
-                    got = strip_casts(ret_value(r)).n if r is not None else None
+                    leaf = value_leaf(ret_value(r), env) if r is not None and ret_value(r) is not None else None
+                    if leaf is None or leaf.k not in REF_KINDS:
+                        raise AnalysisBroken('%s::%s(%s): the value returned for remote %s is computed (%s): idiom not recognised' % (out_cls, fname, tag, remote, (ret_value(r).text()[:40] if r is not None and ret_value(r) is not None else 'no return')))
+                    got = leaf.n
                     exp = spec[table][local][col]
                     ok = got == exp
                     chk.instance(rule, fn, 'local %s (%s/%s), remote %s -> %s' % (local, out_cls, tag, remote, got), ok,
@@ -70,7 +73,10 @@ def run(chk, facts, tier):
             if not chk.require(fn is not None, '%s::get_io_capabilities(%s) not found' % (out_cls, tag)):
                 continue
             r = evaluate(fn, {})
-            got = strip_casts(ret_value(r)).n if r is not None else None
+            leaf = value_leaf(ret_value(r), {}) if r is not None and ret_value(r) is not None else None
+            if leaf is None or leaf.k not in REF_KINDS:
+                raise AnalysisBroken('get_io_capabilities of %s/%s returns a computed value: idiom not recognised' % (out_cls, tag))
+            got = leaf.n
             exp = spec['io_capability_of'][out_cls + '/' + tag]
             chk.instance('io-capability-map', fn, '%s + %s -> %s' % (out_cls, tag, got), got == exp, '' if got == exp else 'Table 2.5 says ' + exp, node=r, key=out_cls + '/' + tag)
 
@@ -150,7 +156,7 @@ def run(chk, facts, tier):
                 for v1 in (0, 1):
                     for v2 in (0, 1):
                         r = evaluate(fn, {pflag: v1, phas: v2})
-                        v = strip_casts(ret_value(r)) if r is not None and ret_value(r) is not None else None
+                        v = value_leaf(ret_value(r), {pflag: v1, phas: v2}) if r is not None and ret_value(r) is not None else None
                         table[(v1, v2)] = 'oob' if v is not None and v.n == 'oob_authentication' else ('table' if v is not None and v.d.get('call') and any(is_name(a, fn.params[0]['n']) for a in v.args()) else '?')
             except AnalysisBroken as e:
                 chk.broke('%s: cannot fold the OOB decision (%s)' % (fname, str(e)[:120]))
